@@ -99,7 +99,8 @@ THEOREMS = [
         "example_straddle",
         # decision tables extracted from the real code (harness/dt_c19.py), regenerated on every run
         "analyzer_table_check", "analyzer_code_table_eq_model", "area_code_table_eq_getAreaIdx", "table_area_spec",
-        "table_on_grid_line", "rows_code_table_eq_model", "table_rows_per_item", "table_rows_examples",
+        "table_on_grid_line", "area_code_table_eq_atoms", "rows_code_table_rel_atoms", "rowsRel_eq_of_noF11",
+        "rows_code_table_eq_model", "table_rows_per_item", "table_rows_examples",
         # N3 (fixed): the repaired get_confusion_matrix / analyze are total, the matrix sums to the paired rows over the extended index and
         # equals the old one whenever that was defined; the PRE-FIX functions raised ValueError iff a paired row carries a label outside
         # target_labels + unknown; witness for a variant that drops such rows
@@ -124,7 +125,9 @@ TRUSTED = [
     "forms that numpy stores in object arrays; a comparison is answered from one order atom per (position, grid line); the sign of "
     "c*max_x is the sign of c), the stub object / transform (an object exposes frame_id and state.position, the transform answers the "
     "ego-frame leaves), the result proxies of the row-status kernel (delegation to a real result with / without ground truth), the "
-    "DFS over decisions, the encoding of the DataFrame as a number, the Lean emission; order atoms of different grid lines are "
+    "DFS over decisions, the encoding of the DataFrame as a number (row pairs read from the index whatever its labels, written as a sorted "
+    "multiset; compared with the model's by PEval.AnalyzerDT.rowsRel: equal, or an FP pair carrying a ground truth shows the estimate "
+    "only - the table-layout repair of F11), the Lean emission; order atoms of different grid lines are "
     "treated as independent (over-approximation)",
 ]
 ASSUMPTIONS = [
